@@ -245,6 +245,92 @@ TASKS.append(FunctionTask(Contract(qual="hvsrpy.data_wrangler._read_saf", params
                                    raises={"ValueError": "True"}, ensures=[], modifies=[]),
                           module_env=_SAF_ENV, label="hvsrpy.data_wrangler._read_saf[list of files]", clauses=["more than one file is refused"]))
 
+# ---------------------------------------------------------------------------------------------------------------------
+# _read_gcf and _read_mseed (one file with three traces / three files with one trace each): thin wrappers around obspy.  obspy.read is opaque
+# (A-OBSPY): STREAM(file) is the list of traces it returns for a file.  Proved: exactly three traces are required, they are handed to _arrange_traces
+# (proved above for all channel-code combinations) in file order, its (ns, ew, vt) go to the constructor in that order, orientation default 0.
+from pyvc.objects import new_symlist, SObj
+NTR = z3.Function("n_traces_in_file", I, I)              # file id -> number of traces obspy returns
+TRID = z3.Function("trace_of_file", I, I, I)            # (file id, position) -> trace id
+ARR3 = z3.Function("arranged_component", I, I, I, I, I)  # (trace ids 0..2, which of ns/ew/vt) -> the time series _arrange_traces returns
+_FID = {"<fname>": 10, "<a>": 11, "<b>": 12, "<c>": 13}
+
+
+def _fid(v):
+    return z3.IntVal(_FID[v.s])
+
+
+def _m_obspy_read(ex, st, args, kw, node):
+    f = _fid(args[0])
+    t = z3.Int("t!tr")
+    st.pc.append(NTR(f) >= 0)
+    return new_symlist(ex, st, "Trace", length=NTR(f), arr=z3.Lambda([t], TRID(f, t)), owner="fresh", name="stream")
+
+
+def _m_stream(ex, st, args, kw, node):
+    items = st.heap[args[0].sid].items
+    if not all(isinstance(x, SObj) for x in items):
+        raise Undecided("obspy.Stream of something other than traces")
+    arr = z3.K(I, z3.IntVal(-1))
+    for j, x in enumerate(items):
+        arr = z3.Store(arr, j, x.id)
+    return new_symlist(ex, st, "Trace", length=z3.IntVal(len(items)), arr=arr, owner="fresh", name="stream")
+
+
+def _m_arrange(ex, st, args, kw, node):
+    d = st.heap[args[0].sid]
+    ex.add_obl(f"call-pre[_arrange_traces:three-traces@{node.lineno}]", "call-pre", st, d.length == 3, node.lineno, "_arrange_traces is handed exactly three traces")
+    ids = [z3.simplify(z3.Select(d.arr, j)) for j in range(3)]
+    return Tup(SObj("TimeSeries", ARR3(*ids, z3.IntVal(k)), owner="fresh") for k in range(3))
+
+
+def _m_rec_s(ex, st, args, kw, node):
+    return ex.alloc_obj(st, "SeismicRecording3C", {"ns": args[0], "ew": args[1], "vt": args[2], "degrees_from_north": kw["degrees_from_north"], "meta": kw.get("meta", NONE)}, "fresh")
+
+
+_OB_ENV = {"str": ClsV("str"), "list": ClsV("list"), "tuple": ClsV("tuple"), "io": ModV("io", {"StringIO": ClsV("StringIO"), "BytesIO": ClsV("BytesIO")}),
+           "pathlib": ModV("pathlib", {"Path": ClsV("Path")}), "_quiet_obspy_read": FuncV(_m_obspy_read, "_quiet_obspy_read"),
+           "obspy": ModV("obspy", {"Stream": FuncV(_m_stream, "obspy.Stream")}), "_arrange_traces": FuncV(_m_arrange, "_arrange_traces"),
+           "SeismicRecording3C": FuncV(_m_rec_s, "SeismicRecording3C")}
+_OB_ENV["str"] = FuncV(lambda ex, st, a, k, n_: StrV("<str>"), "str")     # str(fnames) for the meta entry; isinstance(..., str) is decided through the tuple below
+
+
+def _ob_inputs(kind, deg_given):
+    def mk(ex, st):
+        st.env["fnames"] = StrV("<fname>") if kind == "one" else ex.alloc_list(st, [StrV("<a>"), StrV("<b>"), StrV("<c>")])
+        st.env["obspy_read_kwargs"] = NONE
+        st.env["degrees_from_north"] = DEG_IN if deg_given else NONE
+        return []
+    return mk
+
+
+def _comp_is(ex, st, a, k, n_):
+    o, which = a[0], lit(a[1])
+    ids = [lit(x) for x in a[2:5]]
+    return o.id == ARR3(*ids, which) if isinstance(o, SObj) else z3.BoolVal(False)
+
+
+_OB_GHOST = {"comp_is": FuncV(_comp_is, "comp_is"), "NTR": NTR, "TR": TRID}
+_one = [f"comp_is(result.{c}, {k}, TR(10, 0), TR(10, 1), TR(10, 2))" for k, c in enumerate(("ns", "ew", "vt"))]
+_three = [f"comp_is(result.{c}, {k}, TR(11, 0), TR(12, 0), TR(13, 0))" for k, c in enumerate(("ns", "ew", "vt"))]
+# isinstance(fnames, (str, pathlib.Path, io.BytesIO)) needs `str` as a class: a separate environment for the isinstance-only use is not possible, so the model of
+# `str` is a class whose call returns an opaque string
+_STRCLS = ClsV("str")
+_STRCLS.ctor = lambda ex, st, a, k, n_: StrV("<str>")
+for _fn, _kinds in (("_read_gcf", ("one",)), ("_read_mseed", ("one", "three"))):
+    for _kind in _kinds:
+        for _dg in (False, True):
+            _deg = "result.degrees_from_north == " + ("degrees_from_north" if _dg else "0")
+            if _kind == "one":
+                ens, rai = _one + [_deg], {"ValueError": "NTR(10) != 3"}
+            else:
+                ens, rai = _three + [_deg], {"IndexError": "NTR(11) != 1 or NTR(12) != 1 or NTR(13) != 1"}
+            _c = Contract(qual=f"hvsrpy.data_wrangler.{_fn}", params=["fnames", "obspy_read_kwargs", "degrees_from_north"], ghost=_OB_GHOST, make_inputs=_ob_inputs(_kind, _dg),
+                          ensures=ens, raises=rai, modifies=[],
+                          notes="the traces obspy returns, in file order, go to _arrange_traces; its (ns, ew, vt) go to the recording; orientation as given, 0 when not given")
+            TASKS.append(FunctionTask(_c, module_env=dict(_OB_ENV, str=_STRCLS), label=f"hvsrpy.data_wrangler.{_fn}[{_kind} file{'s' if _kind == 'three' else ''},degrees_from_north={'given' if _dg else 'None'}]",
+                                      clauses=["obspy formats: three traces required, components assigned by _arrange_traces, orientation default 0"]))
+
 META = dict(
     level="other",
     explanation="proved: _check_npts raises iff the counts differ; _arrange_traces for three traces and all 64 combinations of channel-code endings "
